@@ -97,6 +97,12 @@ def mk_engine(root):
     eng = engine(root, FILES, SCHEMA, SPEC_AXIOMS)
     eng.recdefs = {"cntb": (1, _unfold)}
     inline(eng, "HistContainer", "low", "high")
+
+    def isclose(e, st, a, kw, n):          # agreement within a tolerance: implied by equality, does not imply it (an edge test written with it cannot be proved to be the half-open rule)
+        c_ = fresh("within_tolerance", z3.BoolSort())
+        st.assume(z3.Implies(e.num(a[0], st).real() == e.num(a[1], st).real(), c_))
+        return VBool(c_)
+    eng.lib["np.isclose"] = isclose
     eng.count_preserving = [lambda S, X, N: z3.ForAll([k], cntb(S, N, k) == cntb(X, N, k), patterns=[cntb(S, N, k)])]
     return eng
 
